@@ -893,9 +893,18 @@ pub fn drive_c19(t: &Tier, m: &mut Matrix, sink: &mut Sink) {
     // the growable kinds under debug assertions: out-of-range indices within the allocation
     if t.dbg {
         for kind in [Kind::D, Kind::A] {
-            for n in [0usize, 1, 5, 63, 64, 100] {
+            for n in [0usize, 1, 5, 63, 64, 100, 129, 200] {
                 let x = random_bits(&mut rng, n);
                 let lim = if kind == Kind::A { 128 } else { 64 * ((n + 63) / 64) };
+                // copy_range / split_off beyond the length (the documented panic is a debug assertion
+                // in each implementation's copy_range; every storage mode of the auto type goes through one)
+                for i in [n + 1, n + 7, n + 64, n + 130, n + 200] {
+                    let one = |c: Case| c.xk(vec![kind]).cf("sig");
+                    sink.emit(m.run(&one(Case::new("copy_range", x.clone()).a(Args { i: Some(0), j: Some(i), ..Default::default() }))));
+                    sink.emit(m.run(&one(Case::new("copy_range", x.clone()).a(Args { i: Some(n / 2), j: Some(i), ..Default::default() }))));
+                    sink.emit(m.run(&one(Case::new("copy_range", x.clone()).a(Args { i: Some(i), j: Some(i + 5), ..Default::default() }))));
+                    sink.emit(m.run(&one(Case::new("split_off", x.clone()).a(Args { i: Some(i), ..Default::default() }))));
+                }
                 for i in [n, n + 1, lim.saturating_sub(1)] {
                     if i >= n && i < lim {
                         let one = |c: Case| c.xk(vec![kind]).cf("sig");
